@@ -15,6 +15,7 @@ git -C /repo archive HEAD | tar -x -C $S/mut
 # demo destination: lines "<file> -> <dest>"
 declare -a DEMOS
 while read -r a arrow b; do
+  b=${b%% *}
   if [ "$arrow" = "->" ] && [ -f "$SRC/demo/$a" ]; then DEMOS+=("$a:$b"); fi
 done < <(sed -e 's/^Copy:[[:space:]]*//' -e 's/^[[:space:]]*//' $SRC/demo/DEST.txt)
 if [ ${#DEMOS[@]} -eq 0 ]; then
